@@ -315,8 +315,40 @@ def rule_f16_pack_order(fn, fname: str) -> typing.List[dict]:
             continue       # load of the input / removal of the sign
         bad.append(cast.show(t))
     ok = not bad
-    return [res(R, fname, f"{fname}: the input is only loaded and stripped of its sign before it is classified as infinity / NaN", ok,
-                f"`{'; '.join(bad)}` modifies the value before the classification: a NaN whose payload lies in the masked / scaled-away bits is packed as infinity")]
+    out = [res(R, fname, f"{fname}: the input is only loaded and stripped of its sign before it is classified as infinity / NaN", ok,
+               f"`{'; '.join(bad)}` modifies the value before the classification: a NaN whose payload lies in the masked / scaled-away bits is packed as infinity")]
+    # the finite branch: the re-biased 32-bit pattern is clamped to the pattern of half-precision infinity (31 << 23) *before* it is narrowed
+    # to 16 bits.  Narrowed first, the exponent bits above bit 28 are gone and magnitudes from 2**49 on pack to finite garbage.
+    F16INF32 = 31 << 23
+    for s in stmts:
+        t = cast.stmt_term(s)
+        if t is None or t[0] != "bin" or t[1] != "=":
+            continue
+        shifted = [x for x in cast.subterms(t[3]) if isinstance(x, tuple) and x and x[0] == "bin" and x[1] == ">>" and _const_value(x[3]) == 13]
+        if not shifted:
+            continue
+        subj = cast.show(shifted[0][2])
+        if subj.rsplit(".", 1)[0] != base:
+            continue
+        clamped = False
+        for g in stmts:
+            if g.index >= s.index or g.node.get("kind") != "IfStmt":
+                continue
+            c = cast.stmt_term(g)
+            if c is None:
+                continue
+            for u in cast.subterms(c):
+                if isinstance(u, tuple) and u and u[0] == "bin" and u[1] in (">", ">=", "<", "<="):
+                    for a, b in ((u[2], u[3]), (u[3], u[2])):
+                        kv = _const_value(b)
+                        if kv is None:
+                            kv = consts.get(cast.show(b))
+                        if cast.show(a) == subj and kv == F16INF32:
+                            clamped = True
+        out.append(res(R, fname, f"{fname}: the finite result is clamped to infinity as a 32-bit pattern, before it is narrowed to 16 bits", clamped,
+                       f"`{cast.show(t)[:70]}` narrows `{subj}` without a preceding comparison of `{subj}` with 31 << 23: bits above the half-precision exponent are cut "
+                       "off first, so magnitudes of 2**49 and more become finite values instead of infinity (and the mapping is no longer monotone)"))
+    return out
 
 
 # ---- shift amounts stay below the width of what is shifted ----------------------------------------------------------------
